@@ -6,8 +6,14 @@ from shapes import VEC, MATS, mat
 
 
 def mat_unit(exp, name, n):
+    import shufcore
     shapes = [VEC['Vec%d' % k] for k in (2, 3, 4)]
     u = vec_unit(exp, name, shapes)
+    if n == 4:
+        # the Vec4-as-2x2 helper products (through the real shuffle / ShuffleMask4 code)
+        shufcore.add_shuffle_mask(u)
+        shufcore.add_vec4_shuffles(u)
+        shufcore.add_mat2_helpers(u)
     for layout in ('rows', 'cols'):
         ms = mat(n, layout)
         matcore.add_mat_struct(u, ms)
